@@ -66,11 +66,7 @@ def showOutcomeTab : Outcome Table → String
   | .err e => "err:" ++ e
   | .panic _ => "panic"
 
-def dec4 (d : Bytes) (mac : Bool) : Outcome (List (Nat × Nat)) :=
-  if mac then .err "f4mac" else
-  match Cmap4.decode d with
-  | some l => .ok l
-  | none => .err "malformed-subtable"
+def dec4 (d : Bytes) (mac : Bool) : Outcome (List (Nat × Nat)) := dec4Of Cmap4.decode d mac
 
 def subTag : Sub → String
   | .f0 _ => "f0"
@@ -162,6 +158,21 @@ def handle (op : String) (fs : List (String × String)) : String :=
     | some b, some codes =>
       match decode0 b with
       | .ok _ => lookups (spec0Rune macRoman b) codes
+      | .err _ => "na"
+      | .panic _ => "panic"
+    | _, _ => "bad-case"
+  else if op == "cmapx.macspec" then
+    -- property predicate: under the Macintosh key (1,0) a format 0/4/6 subtable whose codes stay below 256
+    -- maps the Unicode character of each MacRoman code to the glyph the specification gives that code
+    match (getField fs "bytes").bind fromHex, (getField fs "codes").bind parseNatList with
+    | some b, some codes =>
+      match get dec4 [(⟨1, 0, 0⟩, b)] ⟨1, 0, 0⟩ with
+      | .ok _ =>
+        let fmt := u16At b 0
+        if fmt = 0 then lookups (specRune macRoman (spec0 b)) codes
+        else if fmt = 6 then lookups (specRune macRoman (spec6 b)) codes
+        else if fmt = 4 then lookups (specRune macRoman (Cmap4.specLookupBytes b)) codes
+        else "na"
       | .err _ => "na"
       | .panic _ => "panic"
     | _, _ => "bad-case"
